@@ -107,7 +107,8 @@ def shardRange : Nat → List Nat
 def Field.exportRecords (f : Field) : List (List Str) :=
   (shardRange (f.maxShard + 1)).flatMap f.exportShard
 
-def Field.exportCSV (f : Field) : Str := writeAll f.exportRecords
+/-- `cw := csv.NewWriter(w)` with the code's writer settings. -/
+def Field.exportCSV (f : Field) : Str := writeAllW codeWriter f.exportRecords
 
 /-! ### import -/
 
@@ -214,7 +215,7 @@ def bufferLoop (bufSize : Nat) : Field → List IBit → List (List Str) → Fie
 
 /-- `ImportCommand.Run` with one path holding `text`, into field `f`. -/
 def importCSV (bufSize : Nat) (f : Field) (text : Str) : Field × Option ImpErr :=
-  let p := parse text
+  let p := parseG codeReader text   -- `csv.NewReader`, `FieldsPerRecord = -1`, nothing else set
   match bufferLoop bufSize f [] p.recs with
   | (f', _, some e) => (f', some e)
   | (f', buf, none) =>
